@@ -80,6 +80,11 @@ CLAIMED.update({
          "note": "Equality with the fresh-process twin for ALL histories is a relation between two process histories: BOUNDED only. FileCacher.get_new_line_monitor/get_original_headers keep a dict of (object, list) tuples, outside the verifier's value model: bounded (clause callers_get_private_copies).",
          "tech": BT},
 })
+CLAIMED.update({
+ "C03": {"cat": "other", "text": "Proved for all inputs: CsvPath.set_variable / get_variable write and read exactly the addressed variable or tracking value and leave every other entry of the store untouched (frame quantified over the whole store; a frozen run changes nothing; 0 and None are values); raise_match_count_if / _consider_line / LineMonitor.next_line keep match_count, scan_count and the 0-based/1-based line counters; first, tally, count, counter, sum, push, pop, count_lines, line_number, count_scans perform exactly the documented read-modify-write against the abstract store. Bounded: the end-to-end fold over 5 program families x 4 scans x 120 (thorough 2500) generated files.",
+         "note": "The variable store is a nested dict: plain variables are proved over dict[str -> value], tracking dicts over one named entry holding dict[str -> value] (string tracking keys) -- other shapes, list-valued variables at end of run, every(), subtotal(), string-to-number conversion of cells are BOUNDED only.",
+         "tech": BT},
+})
 NA_REASON = {}
 m = {
  "version": 1, "setup_cmd": "./setup.sh",
